@@ -295,7 +295,7 @@ def render_blueprint(spec):
             w("        lattice map: |\n")
             for line in g["lattice map"].splitlines():
                 w("            %s\n" % line)
-        else:
+        elif g.get("contents"):
             w("        grid contents:\n")
             for (i, j), s in g["contents"].items():
                 w("            [%d, %d]: %s\n" % (i, j, s))
@@ -316,7 +316,7 @@ def in_first_third(i, j):
     return ang < 120.0 - 1e-9 or ang > 360.0 - 1e-9
 
 
-def core_spec(rng, rings=3, symmetry="third periodic", geom="hex", ndesigns=2, holes=0.15, nblocks=None, pitch=None, kinds=None, coolant="Sodium", hot=True, full_blocks=True):
+def core_spec(rng, rings=3, symmetry="third periodic", geom="hex", ndesigns=2, holes=0.15, nblocks=None, pitch=None, kinds=None, coolant="Sodium", hot=True, full_blocks=True, sfp=True):
     """A small hex core: `ndesigns` assembly designs on a random map with holes."""
     pitch = pitch or rng.uniform(8, 18)
     nblocks = nblocks or rng.randint(2, 5)
@@ -345,6 +345,10 @@ def core_spec(rng, rings=3, symmetry="third periodic", geom="hex", ndesigns=2, h
     if (0, 0) not in contents:
         contents[(0, 0)] = specs[0]
     spec["grids"]["core"] = {"geom": geom, "symmetry": symmetry, "contents": contents}
+    if sfp:
+        spec["systems"] = {"core": {"grid name": "core", "origin": (0.0, 0.0, 0.0)},
+                           "sfp": {"type": "sfp", "grid name": "sfp", "origin": (5000.0, 5000.0, 0.0)}}
+        spec["grids"]["sfp"] = {"geom": "cartesian", "symmetry": "full", "lattice pitch": (pitch * 2, pitch * 2)}
     spec["pitch"] = pitch
     return spec
 
